@@ -21,7 +21,7 @@ MANIFEST = {
              'algorithmic invariant over run histories and is not decided. g is uc::ACC_GRAV (checked to lie in [9.78, 9.83]). Reals.'),
 }
 EXPLANATION = 'SVN terms of update_res / calc_res per direction vs the physical reference formulas; provenance of reported front/back values.'
-RULES = ['C07-1.forces', 'C07-2.strap', 'C07-3.report', 'C07-4.resnet', 'C07-5.aggregate', 'C07-6.fresh', 'C07-7.sibling']
+RULES = ['C07-1.forces', 'C07-2.strap', 'C07-3.report', 'C07-4.resnet', 'C07-5.aggregate', 'C07-6.fresh', 'C07-7.sibling', 'C07-8.index']
 ASSUMPTIONS = ['train length > 0', 'cached indices are correct for the current offsets (not decided)', 'identities over the reals']
 
 DIRS = ((0, 'Unk'), (1, 'Fwd'), (2, 'Bwd'))
@@ -34,6 +34,7 @@ def val(C, i, x):
 
 
 def run(ctx):
+    index_search(ctx)
     prog = ctx.prog
     eng = engine(ctx)
     g = eng.const_value('uc::ACC_GRAV')
@@ -321,3 +322,73 @@ def aggregate(ctx):
                                          ('loco_con' in show(a_[1], an.names) and 'rail_vehicles' in show(a_[2], an.names)))
                 ctx.check(ok, 'C07-5.aggregate', parent + '|mass_static', 'static mass handed to the train state is towed mass + consist mass',
                           'mass_static argument is %s' % s_[:300], ctx.where(b, c.span))
+
+
+def index_search(ctx):
+    """LinSearchHint::calc_idx (the cached position index every strap resistance reads through): on every accepted exit of
+    the forward search the element after the returned index is not below the offset, on every accepted exit of the backward
+    search the returned element is not above it; the searches move the hint by exactly one per iteration and start from it.
+    With the guards (offset within the slice) this is the bracket  points[idx].offset <= offset <= points[idx+1].offset  for a
+    hint on the right side — the exit condition must not have any other way out (an extra conjunct leaves the index stale)."""
+    R = 'C07-8.index'
+    prog = ctx.prog
+    bs = [prog.by_id[f] for f in sorted(prog.by_id) if f.endswith('LinSearchHint>::calc_idx') and not prog.by_id[f].test]
+    if len(bs) != 1:
+        ctx.unproved(R, 'LinSearchHint::calc_idx', 'expected one implementation, found %d' % len(bs)); return
+    b = bs[0]
+    an = analysis_or_fail(ctx, R, b)
+    if an is None:
+        return
+    w = ctx.where(b)
+    idxp = (('local', b.params[2][0]),)
+    off = ('pre', (('val', b.params[1][0]),))
+
+    def alts(pc):
+        out = []
+        for c, o in pc:
+            if c[0] == 'pathset':
+                for alt in c[2]:
+                    out.extend(alts(alt) or [[]])
+            else:
+                out = [x + [(c, o)] for x in (out or [[]])]
+        return out
+    exits = []
+    for pc, v in an.exit_paths:
+        exits.extend(alts(pc))
+    fwd = [e for e in exits if any(c[0] == 'lt' and c[2] == off and o == '0' for c, o in e)]
+    bwd = [e for e in exits if any(c[0] == 'lt' and c[1] == off and o == '0' for c, o in e)]
+    loops = {}
+    for h in an.loop_entry:
+        if idxp in an.havoc.get(h, ()):
+            ent = an.load(idxp, an.loop_entry[h])
+            backs = [an.load(idxp, s_) for s_ in an.loop_back.get(h, [])]
+            loops[h] = (ent, backs)
+    hint = ('pre', (('val', b.params[2][0]),))
+    for name, ex, step in (('forward', fwd, 'add'), ('backward', bwd, 'sub')):
+        ok = len(ex) == 1
+        why = '%d accepted ways out of the %s search' % (len(ex), name)
+        if ok:
+            last = ex[0][-1][0]
+            L = [x for x in walk(last) if x[0] == 'loopvar' and x[2] == idxp]
+            ok = len(set(L)) == 1
+            if ok:
+                Lv = L[0]
+                elem = last[1] if name == 'forward' else last[2]
+                want_idx = mk('add', Lv, ONE) if name == 'forward' else Lv
+                ok = any(x[0] == 'pre' and x[1][-1] == ('idx', want_idx) for x in walk(elem)) or any(c == ('idx', want_idx) for x in walk(elem) if x[0] == 'pre' for c in x[1])
+                why = 'exit test reads %s' % show(elem, an.names)[:120]
+                # only loop decision on that exit: no other conjunct can stop the search early
+                loopdecs = [c for c, o in ex[0] if any(y == Lv for y in walk(c))]
+                ok = ok and len(loopdecs) == 1
+                if len(loopdecs) != 1:
+                    why = 'the search can also stop on %s' % [show(c, an.names)[:80] for c in loopdecs if c != last]
+                ent, backs = loops.get(Lv[1], (None, []))
+                ok2 = ent == hint and bool(backs) and all(x == mk(step, Lv, ONE) for x in backs)
+                ctx.check(ok2, R, 'calc_idx|%s|step' % name, 'the %s search starts from the hint and moves by exactly one element per iteration' % name,
+                          'starts from %s, steps %s' % (show(ent, an.names)[:60] if ent else None, [show(x, an.names)[:60] for x in backs]), w)
+        ctx.check(ok, R, 'calc_idx|%s|bracket' % name,
+                  ('the forward search stops only when the next element is not below the offset' if name == 'forward' else 'the backward search stops only when the current element is not above the offset'),
+                  why, w)
+    gs = [show(g.holds_term(), an.names) for g in an.guards]
+    ctx.check(any('get_offset' in g_ and '<=' in g_ for g_ in gs) and len([g_ for g_ in gs if 'get_offset' in g_]) >= 2, R, 'calc_idx|range',
+              'offsets outside the slice are errors (forward: beyond the last element; backward: before the first)', 'guards: %s' % gs[:4], w)
